@@ -164,6 +164,7 @@ class C12(Check):
             "checked against the independent range tables (O1). Pure predicate - claimed as a by-product of the fault "
             "catalogue. distinct = number of distinct (type kind, width, value class, verdict) cases off the mid-range; non-trivial = the definition has "
             "at least one constant on or beyond a boundary, or of a foreign kind")
+    RULE = RULE + "; " + 'round 8: one ASCII character next to an invisible character (BOM, zero-width, soft hyphen, variation selector, combining mark), raw or escaped'
     TIERS = {"quick": {"runs": 1200, "budget_s": 45}, "thorough": {"runs": 60000, "budget_s": 600}}
 
     def generate(self, rng: random.Random, r: int, tier: str) -> dict:
